@@ -334,7 +334,7 @@ pub fn run(tier: Tier, seed: u64, replay: Option<String>) -> i32 {
             cases.push(c);
         }
     }
-    let n = tier.pick(20000, 400000);
+    let n = tier.pick(150000, 1500000);
     let mut drv = Driver::new(seed, 17, 1500);
     let streams: Vec<Vec<u32>> = drv.draw(n).iter().map(|t| t.current()).collect();
     cases.extend(streams.par_iter().filter_map(|s| make_case(s)).collect::<Vec<_>>());
